@@ -93,6 +93,10 @@ func (fx *FnExec) Run() (obls []*Obligation, err error) {
 			}
 		}
 	}
+	// object invariants of the parameters (objects that existed before the call)
+	for _, p := range fn.Params {
+		fx.assumeTypeInv(p.Type(), fx.regs[p].S, entry.heap)
+	}
 	// ghost variables are declared lazily, on first use (ghostEntry), so that functions that never
 	// mention a ghost do not drag its sort and axioms into their queries
 	fx.bs[fn.Blocks[0]] = entry
@@ -1178,6 +1182,36 @@ func writtenInLoop(def ssa.Value, li *loopInfo) bool {
 	return visit(def, *refs, 0)
 }
 
+// typeInvOf: the declared object invariant of *T, if any.
+func (fx *FnExec) typeInvOf(t types.Type) *Contract {
+	pt, ok := t.Underlying().(*types.Pointer)
+	if !ok || fx.W.Contracts == nil {
+		return nil
+	}
+	n := namedTypeName(pt.Elem())
+	if n == "" {
+		return nil
+	}
+	return fx.W.Contracts.ByName["typeinv "+n]
+}
+
+// assumeTypeInv: a non-nil *T that existed before this activation satisfies T's object invariant.
+func (fx *FnExec) assumeTypeInv(t types.Type, ref string, heap heapState) {
+	ti := fx.typeInvOf(t)
+	if ti == nil || fx.inTypeInv {
+		return
+	}
+	fx.inTypeInv = true
+	defer func() { fx.inTypeInv = false }()
+	for _, inv := range ti.Requires {
+		env := &evalEnv{fx: fx, heap: heap, oldHeap: heap, names: map[string]Val{"x": {T: t, S: ref}}}
+		if e, err := fx.evalC(inv.ast, env); err == nil {
+			fx.assume("(=> (and (> " + ref + " 0) (< " + ref + " " + fx.allocBase() + ")) " + e.S + ")")
+			fx.usedAssumption("object invariant of " + ti.Name + ": " + inv.Text)
+		}
+	}
+}
+
 // hashableKey: using an interface value as a map key panics when its dynamic type is not comparable
 // (slice, map, func). The obligation is generated for keys of interface type only; a struct key with
 // interface fields is not examined (stated in the trusted base).
@@ -1362,6 +1396,12 @@ func (fx *FnExec) execBinOp(x *ssa.BinOp) {
 			fx.setReg(x, Val{S: fx.havoc("bop", fx.sortOf(x.Type()))})
 		}
 	default:
+		// == / != on two interface values panics when both hold the same uncomparable dynamic type
+		// (slice, map, func): "runtime error: comparing uncomparable type"
+		if xs == "Iface" && (x.Op == token.EQL || x.Op == token.NEQ) && !isNilConst(x.X) && !isNilConst(x.Y) {
+			fx.tagOf(types.Typ[types.Int]) // make sure the hashable facts are declared
+			fx.oblige("cmp", "(or (distinct (i.tag "+a+") (i.tag "+b+")) (hashable (i.tag "+a+")))", x, "interface values compared with == hold comparable dynamic types (runtime error: comparing uncomparable type)")
+		}
 		switch x.Op {
 		case token.EQL:
 			fx.defReg(x, eq(a, b))
@@ -1371,6 +1411,11 @@ func (fx *FnExec) execBinOp(x *ssa.BinOp) {
 			fx.setReg(x, Val{S: fx.havoc("bop", fx.sortOf(x.Type()))})
 		}
 	}
+}
+
+func isNilConst(v ssa.Value) bool {
+	c, ok := v.(*ssa.Const)
+	return ok && c.Value == nil
 }
 
 func (fx *FnExec) binOpInt(x *ssa.BinOp, a, b string) {
